@@ -301,9 +301,20 @@ WebSocketMsg WebSocket::receive()
 		if (masked)
 			_socket >> mask;
 
+		if (_socket.error()) // the frame header was cut short: len and mask are not valid
+		{
+			close();
+			msg = WebSocketMsg();
+			return msg.fix();
+		}
+
 		buffer.resize(buffer.length() + len);
-		if (len > 0)
-			_socket.read(buffer.data() + buffer.length() - len, len);
+		if (len > 0 && _socket.read(buffer.data() + buffer.length() - len, len) < len) // payload cut short
+		{
+			close();
+			msg = WebSocketMsg();
+			return msg.fix();
+		}
 
 		DEBUG_LOG("frame: op %i fin %i len %i\n", opcode, fin ? 1 : 0, (int)len);
 
